@@ -26,6 +26,11 @@ def main():
     spec = {"tier": a.tier, "A": {}, "B": {"options": {"part": "diagonal"}}, "mode": "ident", "map": "diagonal",
             "what": "part=diagonal vs diagonal of full tensor", "b_may_reject": True}
     run_cases(chk, "vlib.kvk", "compare", diag, spec, a.jobs)
+    from vlib import randforms
+    rnames = [randforms.name_of(chk.seed, i) for i in range(12 if a.tier == "quick" else 160)] if not a.only else []
+    run_cases(chk, "vlib.kvk", "compare", rnames, {"tier": "quick", "A": {}, "B": {"options": {"part": "diagonal"}}, "mode": "ident", "map": "diagonal",
+                                                  "what": "part=diagonal vs diagonal of full tensor (random forms)", "b_may_reject": True}, a.jobs)
+    chk.extra["random_forms"] = len(rnames)
     # 4. table tolerances: result moves by no more than the tolerances allow
     tt = f(corpus.select("c10", "c01", quick=True))
     pairs = [(1e-3, 1e-6)] if q else [(1e-3, 1e-3), (1e-6, 1e-9), (1e-3, 1e-9)]
